@@ -372,6 +372,8 @@ class SecGen(F.Gen):
       open       whole arrays (also with different lower bounds), `:` subscripts, zero-size sections, variable bounds
       partial    one-sided bounds `:hi`, `lo:`, `::st`
       intrinsic  sections as arguments of elemental intrinsics (no overlap)
+      masked     WHERE / ELSEWHERE constructs (mask over whole arrays, sections, 2-d; mask operands redefined by the
+                 body; several assignments per part; one form with a masked ELSEWHERE)
     Further knobs (classes of the surrounding code):
       print_elems  PRINT items mention array elements (default: scalars and whole arrays only)
       nested_subs  subscripts mention array elements (default: scalars only)
@@ -379,7 +381,7 @@ class SecGen(F.Gen):
                    (default: programs with such a coincidence are not generated, see nested_loop_match)
     Arrays: ia(0:4), ic(2:6) local, ib(1:3,-1:1), ra(1:4)."""
 
-    FAMILIES = ('disjoint', 'overlap', 'stride', 'open', 'partial', 'intrinsic')
+    FAMILIES = ('disjoint', 'overlap', 'stride', 'open', 'partial', 'intrinsic', 'masked')
 
     def __init__(self, rng, features=(), family='disjoint', form=None, print_elems=False, nested_subs=False, loopmatch=False):
         super().__init__(rng, tuple(features) + ('section', 'twod'))
@@ -508,6 +510,30 @@ class SecGen(F.Gen):
             assign(el('ra', rng_(N(3), NONE)), op('prod', el('ra', rng_(NONE, N(2))), R(1, 2))),
         ]
 
+    def fam_masked(self):
+        rng = self.rng
+        j, j2 = rng.sample([-1, 0, 1], 2)
+        c = rng.randint(0, 4)
+
+        def W(mask, body, els=()):
+            return {'s': 'where', 'conds': [mask], 'bodies': [list(body)], 'els': list(els)}
+        return [
+            W(F.cmp_('>', V('ia'), N(c)), [assign(V('ia'), _m(op('sum', V('ia'), N(10))))]),
+            W(F.cmp_('>', V('ia'), N(c)), [assign(V('ia'), _m(op('sum', V('ia'), N(10))))], [assign(V('ia'), op('neg', V('ia')))]),
+            W(F.cmp_('>', el('ia', rng_(N(0), N(3))), N(0)), [assign(el('ia', rng_(N(1), N(4))), _m(op('sum', el('ia', rng_(N(0), N(3))), N(1)))),
+                                                            assign(el('ia', rng_(N(1), N(4))), _m(op('prod', el('ia', rng_(N(1), N(4))), N(2))))]),
+            W(F.cmp_('==', call('mod', el('ib', rng_(), N(j)), N(2)), N(0)), [assign(el('ib', rng_(), N(j2)), el('ib', rng_(), N(j)))],
+              [assign(el('ib', rng_(), N(j2)), N(0))]),
+            W(op('and', F.cmp_('>', V('ib'), N(c)), F.cmp_('<', V('ib'), N(c + 4))), [assign(V('ib'), N(1))]),
+            W(F.cmp_('/=', el('ic', rng_(N(2), N(4))), el('ia', rng_(N(0), N(2)))), [assign(el('ia', rng_(N(0), N(2))), el('ic', rng_(N(2), N(4))))],
+              [assign(el('ia', rng_(N(0), N(2))), N(c))]),
+            W(F.cmp_('>', V('ra'), R(1)), [assign(V('ra'), op('prod', V('ra'), R(1, 2)))], [assign(V('ra'), op('sum', V('ra'), R(1, 4)))]),
+            W(F.cmp_('<', V('ic'), N(3)), [assign(V('ic'), _m(op('sum', V('ic'), V('m')))), assign(V('ia'), V('ic'))]),
+            W(F.cmp_('>=', el('ia', rng_(N(0), N(4), N(2))), N(1)), [assign(el('ia', rng_(N(0), N(4), N(2))), N(0))]),
+            {'s': 'where', 'conds': [F.cmp_('>', V('ia'), N(c + 1)), F.cmp_('<', V('ia'), N(0))],
+             'bodies': [[assign(V('ia'), N(-3))], [assign(V('ia'), _m(op('sum', V('ia'), N(100))))]], 'els': [assign(V('ia'), N(7))]},
+        ]
+
     def fam_intrinsic(self):
         rng = self.rng
         j = rng.choice([-1, 0, 1])
@@ -569,7 +595,8 @@ class SecGen(F.Gen):
         body += [{'s': 'do', 'var': 'i', 'lo': N(2), 'hi': N(6), 'st': NONE, 'body': [
             assign(V('k'), call('mod', op('sum', op('prod', V('k'), N(3)), el('ic', V('i'))), N(101)))]}]
         prog = {'units': [unit('kernel', args, decls, body)] + units}
-        prog['form'] = sec_forms({'units': [unit('kernel', args, decls, self.section_stmt())]})
+        st = self.section_stmt()
+        prog['form'] = (f"where{len(st[0]['conds'])}:" if st[0]['s'] == 'where' else '') + sec_forms({'units': [unit('kernel', args, decls, st)]})
         return prog
 
 
